@@ -32,6 +32,7 @@ import (
 )
 
 type c20Case struct {
+	Part  string  `json:"part,omitempty"`
 	T     int     `json:"T"`
 	T2    int     `json:"T2"`
 	U     int     `json:"U"`
@@ -57,19 +58,23 @@ const (
 )
 
 type c20Viol struct {
-	Kind     string   `json:"kind"`
-	Case     *c20Case `json:"case"`
-	Step     int      `json:"step"`
-	Src      int      `json:"src"`
-	Win      int      `json:"win"`
-	Thr      int      `json:"thr"`
-	Residual bool     `json:"residual_after_unban"`
-	RealRes  int      `json:"real_residual"`
-	Rules    bool     `json:"rules_present"`
-	ExcKind  string   `json:"exception_kind,omitempty"`
-	Counter  int      `json:"counter"`
-	Panic    string   `json:"panic,omitempty"`
-	Harness  string   `json:"harness"`
+	Kind     string        `json:"kind"`
+	Case     *c20Case      `json:"case"`
+	Step     int           `json:"step"`
+	Src      int           `json:"src"`
+	Win      int           `json:"win"`
+	Thr      int           `json:"thr"`
+	Residual bool          `json:"residual_after_unban"`
+	RealRes  int           `json:"real_residual"`
+	Rules    bool          `json:"rules_present"`
+	ExcKind  string        `json:"exception_kind,omitempty"`
+	Counter  int           `json:"counter"`
+	Panic    string        `json:"panic,omitempty"`
+	Harness  string        `json:"harness"`
+	Match    *c20MatchCase `json:"match_case,omitempty"`
+	Via      string        `json:"via,omitempty"`
+	Inverted bool          `json:"inverted,omitempty"`
+	Short    bool          `json:"shorter_than_values,omitempty"`
 }
 
 func (v *c20Viol) key() string {
@@ -83,15 +88,33 @@ var c20Events = [4][]byte{
 	[]byte(`{"level":"info","message":"plain"}`),
 }
 
+// the second realisation of class "e": shorter than the value of the inverted exception rule
+var c20ShortExcepted = []byte(`{"m":1}`)
+
+func c20Event(kind, step int) []byte {
+	if kind == 1 && step%2 == 1 {
+		return c20ShortExcepted
+	}
+	return c20Events[kind]
+}
+
 func c20Name(s int) string { return fmt.Sprintf("src%d", s) }
 func c20ID(s int) string   { return fmt.Sprintf("%d", s) }
 
 func c20Exceptions() Exceptions {
-	e := Exceptions{{RuleSet: matchrule.RuleSet{
-		Name:  "c20exc",
-		Cond:  matchrule.CondOr,
-		Rules: []matchrule.Rule{{Mode: matchrule.ModeContains, Values: []string{"EXC"}}},
-	}}}
+	e := Exceptions{
+		{RuleSet: matchrule.RuleSet{
+			Name:  "c20exc",
+			Cond:  matchrule.CondOr,
+			Rules: []matchrule.Rule{{Mode: matchrule.ModeContains, Values: []string{"EXC"}}},
+		}},
+		// "everything that does not start with {"level":" is exempt"
+		{RuleSet: matchrule.RuleSet{
+			Name:  "c20notlevel",
+			Cond:  matchrule.CondAnd,
+			Rules: []matchrule.Rule{{Mode: matchrule.ModePrefix, Values: []string{`{"level":"`}, Invert: true}},
+		}},
+	}
 	e.Prepare()
 	return e
 }
@@ -113,6 +136,7 @@ func c20Rules(t2 int) (Rules, error) {
 
 type c20Stats struct {
 	executed, steps, flips, unbans, casesWithBan, casesWithUnban, drift, dumpDrift int
+	matchCases                                                                     int
 	determined                                                                     int
 	driftSample                                                                    []string
 	viols                                                                          map[string][]*c20Viol
@@ -161,7 +185,7 @@ func c20Run(c *c20Case, ctl *metric.Ctl, st *c20Stats) {
 		verdict := false
 		if s[c20Op] == 0 {
 			now += s[c20Dt]
-			verdict = a.IsSpam(c20ID(s[c20Src]), c20Name(s[c20Src]), s[c20Kind] == 3, c20Events[s[c20Kind]],
+			verdict = a.IsSpam(c20ID(s[c20Src]), c20Name(s[c20Src]), s[c20Kind] == 3, c20Event(s[c20Kind], i),
 				base.Add(time.Duration(now)*time.Second), nil)
 		} else {
 			a.Maintenance()
@@ -277,6 +301,121 @@ func c20Run(c *c20Case, ctl *metric.Ctl, st *c20Stats) {
 	}
 }
 
+// ---- matchrule cases: "a matching exception" decided by the real RuleSet.Match inside the real IsSpam
+
+type c20MatchRule struct {
+	Vals [][]int `json:"vals"`
+	Mode string  `json:"mode"`
+	Ci   bool    `json:"ci"`
+	Inv  bool    `json:"inv"`
+}
+
+type c20MatchCase struct {
+	Cond  string         `json:"cond"`
+	Data  []int          `json:"data"`
+	Rules []c20MatchRule `json:"rules"`
+	M     bool           `json:"m"`  // declarative: the set matches the data
+	Mm    bool           `json:"mm"` // transcription
+	Short bool           `json:"short"`
+}
+
+func c20Str(sym []int) string {
+	b := make([]byte, len(sym))
+	for i, x := range sym {
+		b[i] = [...]byte{'?', 'a', 'b', 'A'}[x]
+	}
+	return string(b)
+}
+
+// with threshold 1 a fresh source is banned (and dropped) by its first counted event, so
+// "IsSpam = false" <=> the record was recognised as matching the exception / the unlimited rule
+func c20RunMatch(c *c20MatchCase, ctl *metric.Ctl, st *c20Stats) {
+	defer func() {
+		if r := recover(); r != nil {
+			st.add(&c20Viol{Kind: "panic", Match: c, Panic: fmt.Sprint(r), Harness: "antispam-match"})
+		}
+	}()
+	data := c20Str(c.Data)
+	inverted := false
+	rs := matchrule.RuleSet{Name: "c20m", Cond: matchrule.CondAnd}
+	if c.Cond == "or" {
+		rs.Cond = matchrule.CondOr
+	}
+	var nodes []any
+	for _, r := range c.Rules {
+		mr := matchrule.Rule{CaseInsensitive: r.Ci, Invert: r.Inv}
+		inverted = inverted || r.Inv
+		switch r.Mode {
+		case "prefix":
+			mr.Mode = matchrule.ModePrefix
+		case "contains":
+			mr.Mode = matchrule.ModeContains
+		case "suffix":
+			mr.Mode = matchrule.ModeSuffix
+		}
+		var vals []any
+		for _, v := range r.Vals {
+			mr.Values = append(mr.Values, c20Str(v))
+			vals = append(vals, c20Str(v))
+		}
+		rs.Rules = append(rs.Rules, mr)
+		var node any = map[string]any{"op": r.Mode, "field": "event", "values": vals, "case_sensitive": !r.Ci}
+		if r.Inv {
+			node = map[string]any{"op": "not", "operands": []any{node}}
+		}
+		nodes = append(nodes, node)
+	}
+	now := time.Date(2024, 1, 2, 3, 4, 5, 0, time.UTC)
+	judge := func(via string, verdict bool, excKind string, rules bool) {
+		st.steps++
+		if c.M {
+			st.determined++
+		}
+		if c.M && verdict {
+			st.add(&c20Viol{Kind: "exception_dropped", Match: c, ExcKind: excKind, Rules: rules, Via: via,
+				Inverted: inverted, Short: c.Short, Harness: "antispam-match"})
+		}
+		if c.Mm == verdict { // the transcription says "matches" <=> not spam
+			st.drift++
+			if len(st.driftSample) < 5 {
+				b, _ := json.Marshal(c)
+				st.driftSample = append(st.driftSample, fmt.Sprintf("match via %s: real verdict=%v, model match=%v; case %s", via, verdict, c.Mm, b))
+			}
+		}
+	}
+	// (a) exception checked against the event bytes
+	exc := Exceptions{{RuleSet: rs}}
+	exc.Prepare()
+	a := NewAntispammer(&Options{MaintenanceInterval: time.Second, Threshold: 1, UnbanIterations: 4, Exceptions: exc,
+		Logger: zap.NewNop(), MetricsController: ctl})
+	judge("event", a.IsSpam("1", "c20src", false, []byte(data), now, nil), "exception", false)
+	// (b) exception checked against the source name
+	rs2 := rs
+	rs2.Rules = append([]matchrule.Rule(nil), rs.Rules...)
+	for i := range rs2.Rules {
+		rs2.Rules[i].Values = append([]string(nil), rs.Rules[i].Values...)
+	}
+	exc2 := Exceptions{{RuleSet: rs2, CheckSourceName: true}}
+	exc2.Prepare()
+	a2 := NewAntispammer(&Options{MaintenanceInterval: time.Second, Threshold: 1, UnbanIterations: 4, Exceptions: exc2,
+		Logger: zap.NewNop(), MetricsController: ctl})
+	judge("source_name", a2.IsSpam("1", data, false, []byte("some event"), now, nil), "exception", false)
+	// (c) the same condition as an antispam rule that lifts the limit (do_if with not / and / or)
+	var root any = nodes[0]
+	if len(nodes) > 1 {
+		root = map[string]any{"op": c.Cond, "operands": nodes}
+	}
+	chk, err := doif.NewFromMap(root.(map[string]any))
+	if err != nil {
+		panic(err)
+	}
+	a3 := NewAntispammer(&Options{MaintenanceInterval: time.Second, Threshold: 1, UnbanIterations: 4,
+		Rules:  Rules{{Name: "c20unl", Threshold: -1, DoIfChecker: chk}},
+		Logger: zap.NewNop(), MetricsController: ctl})
+	judge("rule", a3.IsSpam("1", "c20src", false, []byte(data), now, nil), "unlimited_rule", true)
+	st.matchCases++
+}
+
 func TestVerifC20(t *testing.T) {
 	in := os.Getenv("VERIF_CASES")
 	out := os.Getenv("VERIF_OUT")
@@ -303,6 +442,14 @@ func TestVerifC20(t *testing.T) {
 				if err := json.Unmarshal(ln, c); err != nil {
 					panic(fmt.Sprintf("bad case line: %v", err))
 				}
+				if c.Part == "match" {
+					m := &c20MatchCase{}
+					if err := json.Unmarshal(ln, m); err != nil {
+						panic(fmt.Sprintf("bad match case line: %v", err))
+					}
+					c20RunMatch(m, ctl, stats[wi])
+					continue
+				}
 				c20Run(c, ctl, stats[wi])
 			}
 		}(wi)
@@ -325,6 +472,7 @@ func TestVerifC20(t *testing.T) {
 		tot.drift += s.drift
 		tot.dumpDrift += s.dumpDrift
 		tot.determined += s.determined
+		tot.matchCases += s.matchCases
 		for _, d := range s.driftSample {
 			if len(tot.driftSample) < 5 {
 				tot.driftSample = append(tot.driftSample, d)
@@ -348,7 +496,7 @@ func TestVerifC20(t *testing.T) {
 	res := map[string]interface{}{
 		"executed": tot.executed, "steps": tot.steps, "bans": tot.flips, "unbans": tot.unbans,
 		"cases_with_ban": tot.casesWithBan, "cases_with_unban": tot.casesWithUnban,
-		"determined": tot.determined, "drift": tot.drift, "dump_drift": tot.dumpDrift,
+		"determined": tot.determined, "match_cases": tot.matchCases, "drift": tot.drift, "dump_drift": tot.dumpDrift,
 		"drift_samples": tot.driftSample, "violations": all, "violation_counts": tot.counts,
 	}
 	b, _ := json.Marshal(res)
